@@ -145,8 +145,26 @@ def tracker_ops(draw, visual, batch, nobj, scenes):
         ops.append({"op": "epoch", "scene": 0, "default_scene": False})
         return ops
     for _ in range(nsteps):
-        kind = draw(st.sampled_from(["predict"] * 6 + ["skip", "skip", "epoch", "wasted", "wasted", "idle", "clear_wasted", "stats"]))
+        kind = draw(st.sampled_from(["predict"] * 6 + ["skip", "skip", "epoch", "wasted", "wasted", "idle", "clear_wasted", "stats"] + (["predict_multi"] * 3 if batch and len(scenes) > 1 else [])))
         scene = draw(st.sampled_from(scenes))
+        if kind == "predict_multi":
+            # one request with several scenes
+            parts = []
+            for sc in scenes:
+                if draw(st.booleans()) or not parts:
+                    t[sc] += 1
+                    dets = []
+                    for o in range(nobj):
+                        x = f32(100.0 + 250.0 * o + 2.0 * t[sc] + draw(fl(-2, 2)))
+                        y = f32(100.0 + 40.0 * (o % 2) + draw(fl(-2, 2)))
+                        d = {"box": {"ctor": "new_with_confidence", "xc": x, "yc": y, "angle": None, "aspect": f32(0.8 + 0.1 * o), "height": f32(50.0 + o), "confidence": 1.0}, "custom": draw(st.one_of(st.none(), st.integers(0, 99)))}
+                        if visual:
+                            d["feature"] = [f32(math.cos(o * 1.3 + k)) for k in range(4)]
+                            d["quality"] = draw(st.one_of(st.none(), fl(0.1, 1.0)))
+                        dets.append(d)
+                    parts.append({"scene": sc, "dets": dets})
+            ops.append({"op": "predict_multi", "parts": parts})
+            continue
         if kind == "predict":
             t[scene] += 1
             dets = []
@@ -398,6 +416,11 @@ def constraints_of(c):
     return x
 
 
+def order_key(x):
+    # independent of the raw ids (schedule dependent for the batch trackers)
+    return (x["scene"], x["epoch"], x["length"], x["observed"][0], x["observed"][1])
+
+
 def run_tracker(s):
     k = s["kind"]
     visual = k in ("visual", "batch_visual")
@@ -468,6 +491,18 @@ def run_tracker(s):
                         oset.add(ob)
                     ts = tr.predict(oset) if op["default_scene"] else tr.predict_with_scene(op["scene"], oset)
                     out.append([track_trace(t) for t in ts])
+        elif n == "predict_multi":
+            req = S.VisualSortPredictionBatchRequest() if visual else S.SortPredictionBatchRequest()
+            for part in op["parts"]:
+                for d in part["dets"]:
+                    if visual:
+                        req.add(part["scene"], S.VisualSortObservation(d.get("feature"), d.get("quality"), mk_ubox(d["box"]), d["custom"]))
+                    else:
+                        req.add(part["scene"], mk_ubox(d["box"]), d["custom"])
+            res = tr.predict(req)
+            nres = res.batch_size()
+            got = [res.get() for _ in range(nres)]
+            out.append([nres, sorted([[sc, [track_trace(t) for t in ts]] for (sc, ts) in got], key=lambda x: x[0])])
         elif n == "skip":
             if op["default_scene"]:
                 tr.skip_epochs(op["n"])
@@ -477,7 +512,7 @@ def run_tracker(s):
         elif n == "epoch":
             out.append(tr.current_epoch() if op["default_scene"] else tr.current_epoch_with_scene(op["scene"]))
         elif n == "wasted":
-            out.append(sorted([wasted_trace(w, visual) for w in tr.wasted()], key=lambda x: x["id"]))
+            out.append(sorted([wasted_trace(w, visual) for w in tr.wasted()], key=order_key))
         elif n == "idle":
             if batch:
                 ts = tr.idle_tracks(op["scene"])
@@ -485,12 +520,14 @@ def run_tracker(s):
                 ts = tr.idle_tracks()
             else:
                 ts = (getattr(tr, "idle_tracks_with_scene", None) or tr.idle_tracks_with_scene_py)(op["scene"])
-            out.append(sorted([track_trace(t) for t in ts], key=lambda x: x["id"]))
+            out.append(sorted([track_trace(t) for t in ts], key=order_key))
         elif n == "clear_wasted":
             tr.clear_wasted()
             out.append(None)
         elif n == "stats":
-            out.append(tr.shard_stats())
+            # batch trackers draw ids from one counter shared by concurrently voted scenes: which
+            # ids (hence which shards) the stored tracks get is schedule dependent - only the total
+            out.append(sum(tr.shard_stats()) if batch else tr.shard_stats())
     return out
 
 
@@ -587,7 +624,7 @@ def nontrivial(script):
         if s["kind"] in ("bbox", "ubox"):
             return True  # touches every getter of the class
         if s["kind"] in ("sort", "batch_sort", "visual", "batch_visual"):
-            preds = [o for o in s["ops"] if o["op"] == "predict" and len(o["dets"]) >= 2]
+            preds = [o for o in s["ops"] if (o["op"] == "predict" and len(o["dets"]) >= 2) or o["op"] == "predict_multi"]
             if len(preds) >= 3 and any(o["op"] in ("wasted", "idle") for o in s["ops"]):
                 return True
     return False
